@@ -171,6 +171,18 @@ type gcsData struct {
 	Seed  uint32     `json:"seed"`  // item seed
 	Dups  int        `json:"dups"`  // first Dups derived items are repeated once
 	Extra []HexBytes `json:"extra"` // explicit items (lengths 0..40)
+	// Outs: this many further members shaped like the outpoints of ONE transaction: a common 32-byte prefix
+	// followed by a 4-byte index 0..Outs-1 (items that differ only behind a long common prefix)
+	Outs int `json:"outs,omitempty"`
+}
+
+func outpointItem(seed uint32, i int) []byte {
+	b := make([]byte, 36)
+	for j := 0; j < 32; j += 4 {
+		binary.LittleEndian.PutUint32(b[j:], seed*2654435761+uint32(j))
+	}
+	binary.LittleEndian.PutUint32(b[32:], uint32(i))
+	return b
 }
 
 func derivedItem(seed uint32, i int) []byte {
@@ -190,6 +202,9 @@ func (d gcsData) items() [][]byte {
 	}
 	for _, e := range d.Extra {
 		out = append(out, e)
+	}
+	for i := 0; i < d.Outs; i++ {
+		out = append(out, outpointItem(d.Seed, i))
 	}
 	return out
 }
@@ -213,11 +228,14 @@ func genGCSData(t *rapid.T, maxN int) gcsData {
 	if d.N > 0 && rapid.Bool().Draw(t, "dups") {
 		d.Dups = rapid.IntRange(1, 3).Draw(t, "ndups")
 	}
+	if rapid.IntRange(0, 3).Draw(t, "outs") == 0 {
+		d.Outs = rapid.IntRange(1, 4).Draw(t, "nouts")
+	}
 	ne := rapid.IntRange(0, 3).Draw(t, "nextra")
 	for i := 0; i < ne; i++ {
 		d.Extra = append(d.Extra, genBytes(t, "extra", 0, 40))
 	}
-	total := uint64(d.N + d.Dups + ne)
+	total := uint64(d.N + d.Dups + ne + d.Outs)
 	if total == 0 {
 		total = 1
 	}
@@ -230,6 +248,9 @@ func genGCSData(t *rapid.T, maxN int) gcsData {
 		}
 	case 1:
 		d.M = 1
+		if rapid.IntRange(0, 3).Draw(t, "mzero") == 0 {
+			d.M = 0
+		}
 	default:
 		shift := rapid.IntRange(-1, 6).Draw(t, "mshift")
 		if shift < 0 {
@@ -242,7 +263,7 @@ func genGCSData(t *rapid.T, maxN int) gcsData {
 			d.M |= 1
 		}
 	}
-	if d.M == 0 {
+	if d.M == 0 && rapid.IntRange(0, 1).Draw(t, "keepzero") == 0 {
 		d.M = 1
 	}
 	for d.M > 1 && (d.M > (uint64(1)<<62)/total) {
@@ -258,6 +279,8 @@ type gcsQuery struct {
 	Foreign []int      `json:"foreign"`  // derived non-member items (seed+1, i)
 	Raw     []HexBytes `json:"raw"`      // explicit byte strings
 	RepeatF int        `json:"repeat_f"` // pad the query with this many further foreign items (size above N/2)
+	// Outs: outpoint-shaped items by index (members if below the filter's Outs, else non-members); they come first
+	Outs []int `json:"outs,omitempty"`
 }
 
 type c13Case struct {
@@ -276,6 +299,9 @@ type gcsCall struct {
 
 func (q gcsQuery) resolve(items [][]byte, seed uint32) [][]byte {
 	var out [][]byte
+	for _, i := range q.Outs {
+		out = append(out, outpointItem(seed, i))
+	}
 	for _, m := range q.Member {
 		if len(items) > 0 {
 			out = append(out, items[((m%len(items))+len(items))%len(items)])
@@ -294,8 +320,11 @@ func (q gcsQuery) resolve(items [][]byte, seed uint32) [][]byte {
 }
 
 func evalC13(c c13Case, o *Obs) error {
-	if len(c.D.Key) != 16 || c.D.P > 32 || c.D.M == 0 {
+	if len(c.D.Key) != 16 || c.D.P > 32 {
 		return hbug("bad filter parameters")
+	}
+	if c.D.M == 0 {
+		o.Class("C13:M=0") // degenerate but legal: every item maps to 0, members are still members
 	}
 	items := c.D.items()
 	key := c.D.key()
@@ -398,6 +427,24 @@ func evalC13(c c13Case, o *Obs) error {
 			}
 		}
 	}
+	// the serialisations handed out are copies: the caller may do with them what it likes
+	if len(items) > 0 {
+		for _, get := range []func() ([]byte, error){f.Bytes, f.NBytes, f.PBytes, f.NPBytes} {
+			if b, err := get(); err == nil {
+				for i := range b {
+					b[i] ^= 0xa5
+				}
+			}
+		}
+		for _, i := range []int{0, len(items) / 2, len(items) - 1} {
+			if ok, err := f.Match(key, items[i]); err != nil || !ok {
+				return fmt.Errorf("%s: member %x is no longer matched after the caller overwrote the slices returned by Bytes/NBytes/PBytes/NPBytes (%v, %v)", desc, items[i], ok, err)
+			}
+			if ok, err := f.MatchAny(key, [][]byte{items[i]}); err != nil || !ok {
+				return fmt.Errorf("%s: member %x is no longer matched by MatchAny after the caller overwrote the returned serialisations (%v, %v)", desc, items[i], ok, err)
+			}
+		}
+	}
 	// call histories: the answers do not depend on what was asked before
 	if len(c.Hist) > 0 && len(items) > 0 {
 		o.Class("C13:call-history")
@@ -489,6 +536,9 @@ func genQueries(t *rapid.T, n int) []gcsQuery {
 		default:
 			q.Foreign = []int{rapid.IntRange(0, 1000).Draw(t, "fi")}
 			q.RepeatF = rapid.IntRange(0, n).Draw(t, "rep")
+		}
+		if rapid.IntRange(0, 3).Draw(t, "qouts") == 0 { // outpoints of the one transaction, non-members before members
+			q.Outs = []int{1000 + rapid.IntRange(0, 9).Draw(t, "oq1"), rapid.IntRange(0, 5).Draw(t, "oq2"), 2000}
 		}
 		qs = append(qs, q)
 	}
